@@ -3,6 +3,7 @@
 package scen
 
 import (
+	"bytes"
 	"fmt"
 	"io"
 	"os"
@@ -90,33 +91,35 @@ func cliArgs(s Step, chartDir string) []string {
 }
 
 // runCLI executes the step through pkg/cmd (flag parsing and command wiring included) against cfg.
-func (e *Env) runCLI(cfg *action.Configuration, s Step) error {
+func (e *Env) runCLI(cfg *action.Configuration, s Step) (string, error) {
 	chartDir := ""
 	if s.Chart != "" {
 		ch, err := BuildChart(s.Chart, e.Lib[s.Chart])
 		if err != nil {
-			return err
+			return "", err
 		}
 		tmp, err := os.MkdirTemp("", "hvcli")
 		if err != nil {
-			return err
+			return "", err
 		}
 		defer os.RemoveAll(tmp)
 		if err := chartutil.SaveDir(ch, tmp); err != nil {
-			return err
+			return "", err
 		}
 		chartDir = filepath.Join(tmp, s.Chart)
 	}
 	args := cliArgs(s, chartDir)
 	if args == nil {
-		return fmt.Errorf("no command line for %s", s.Op)
+		return "", fmt.Errorf("no command line for %s", s.Op)
 	}
-	root, err := helmcmd.NewRootCmdWithConfigForVerif(cfg, io.Discard, args)
+	var out bytes.Buffer
+	root, err := helmcmd.NewRootCmdWithConfigForVerif(cfg, &out, args)
 	if err != nil {
-		return err
+		return "", err
 	}
 	root.SetArgs(args)
-	root.SetOut(io.Discard)
+	root.SetOut(&out)
 	root.SetErr(io.Discard)
-	return root.Execute()
+	err = root.Execute()
+	return out.String(), err
 }
